@@ -72,6 +72,12 @@ CLAIMS = {
                 '"Exactly once and nothing else" for every history is not decided.',
         'note': 'trusted: clang 14 AST/CFG, exporter',
     },
+    'C13': {
+        'text': 'Decides the failure and format discipline of the Timbuk text layer: every position obtained from find() is compared with npos before it is used, constant subscripts are dominated by size tests, '
+                'every throw in parser/serializer/loaders raises a std::exception-derived type and no abort/exit is called, and writer/reader tables agree (section keywords, arrow/parentheses, symbolic-assignment characters). '
+                'Round-trip equality, termination on all inputs and the <cctype> domain are not decided.',
+        'note': 'trusted: clang 14 AST, exporter',
+    },
     'C14': {
         'text': 'Decides that renaming writes exactly translated values into the destination: in ReindexStates (tree, NFA, both BDD cores) and CollapseStates every state handed to the destination '
                 '(final/start states, rule parents, children, successors) is the state index applied once to a stored state; the destination is written only through unique*() handles (COW). '
